@@ -337,6 +337,15 @@ class OutFile:
     time_units: str
 
 
+NAN_SEEN: list[str] = []  # non-finite values among the numbers a reader of the output gets (cleared per case by the child process)
+
+
+def _note_nan(path, name: str, arr, where: str) -> None:
+    a = np.asarray(arr)
+    if a.dtype.kind == "f" and a.size and not np.all(np.isfinite(a)):
+        NAN_SEEN.append(f"{Path(path).name}: {name} holds {int(np.sum(~np.isfinite(a)))} non-finite value(s) {where}")
+
+
 def _abs_time(ref, tv: float):
     if not np.isfinite(tv) or abs(tv) > 1e15:
         return np.datetime64("NaT", "s")
@@ -355,6 +364,8 @@ def read_outfile(path: Path) -> OutFile:
         ivars = [n for n, v in nc.variables.items() if v.dimensions == (("time", "particle") if dense else ("particle_instance",))]
         pvars = {n: np.array(v[:]) for n, v in nc.variables.items() if v.dimensions == ("particle",)}
         punits = {n: getattr(nc.variables[n], "units", "") for n in pvars}
+        for k, a_ in pvars.items():
+            _note_nan(path, k, a_, "among the particle variables")
         recs = []
         counts = None
         if not dense:
@@ -364,6 +375,8 @@ def read_outfile(path: Path) -> OutFile:
                 start = int(np.sum(counts[:n]))
                 cnt = int(counts[n])
                 vars_ = {k: d[start:start + cnt] for k, d in data.items()}
+                for k, a_ in vars_.items():
+                    _note_nan(path, k, a_, f"in record {n}")
                 recs.append(Rec(str(path), n, float(times[n]), _abs_time(ref, times[n]),
                                 vars_.get("pid", np.array([], int)).astype(int), vars_))
             ninst = len(nc.dimensions["particle_instance"])
@@ -378,6 +391,8 @@ def read_outfile(path: Path) -> OutFile:
                 else:
                     present = np.nonzero(~_isfill(raw[key], fill[key]))[0]
                 vars_ = {k: r[present] for k, r in raw.items()}
+                for k, a_ in vars_.items():
+                    _note_nan(path, k, a_, f"in record {n} among the particles that have a position there")
                 recs.append(Rec(str(path), n, float(times[n]), _abs_time(ref, times[n]),
                                 present.astype(int), vars_, raw={k: (r, fill[k]) for k, r in raw.items()}))
             ninst = 0
